@@ -979,15 +979,35 @@ fn variant_in_expr(e: &syn::Expr, file: &syn::File, ty: &str, variants: &[&str])
     None
 }
 
+/// the first `match` (anywhere in the block: statement, `let` initialiser, nested block) whose scrutinee mentions the name
 fn find_match<'a>(block: &'a syn::Block, scrutinee_mentions: &str) -> Option<&'a syn::ExprMatch> {
-    for st in &block.stmts {
-        let e = match st { syn::Stmt::Expr(e, _) => e, _ => continue };
-        if let syn::Expr::Match(m) = e {
-            let txt = expr_idents(&m.expr);
-            if txt.iter().any(|i| i == scrutinee_mentions) { return Some(m); }
+    find_match_by(block, &|m: &syn::ExprMatch| expr_idents(&m.expr).iter().any(|i| i == scrutinee_mentions))
+}
+
+fn find_match_by<'a>(block: &'a syn::Block, pred: &dyn Fn(&syn::ExprMatch) -> bool) -> Option<&'a syn::ExprMatch> {
+    struct V<'a, 'p> { pred: &'p dyn Fn(&syn::ExprMatch) -> bool, found: Option<&'a syn::ExprMatch> }
+    impl<'a, 'p> syn::visit::Visit<'a> for V<'a, 'p> {
+        fn visit_expr_match(&mut self, m: &'a syn::ExprMatch) {
+            if self.found.is_none() && (self.pred)(m) { self.found = Some(m); }
+            if self.found.is_none() { syn::visit::visit_expr_match(self, m); }
         }
+        fn visit_expr_closure(&mut self, _c: &'a syn::ExprClosure) {}   // not inside closures
     }
-    None
+    use syn::visit::Visit;
+    let mut v = V { pred, found: None };
+    v.visit_block(block);
+    v.found
+}
+
+/// the tag a `match` arm of an `unpack` function dispatches on: a literal pattern (`1 => …` on the first byte) or a slice
+/// pattern whose first element is one literal (`[1, index, ..] => …` on the bytes)
+fn arm_tag(p: &syn::Pat) -> Option<i128> {
+    match p {
+        syn::Pat::Lit(l) => eval(&syn::Expr::Lit(l.clone()), &Consts::new()),
+        syn::Pat::Slice(sl) => match sl.elems.first()? { syn::Pat::Lit(l) => eval(&syn::Expr::Lit(l.clone()), &Consts::new()), _ => None },
+        syn::Pat::Paren(pp) => arm_tag(&pp.pat),
+        _ => None,
+    }
 }
 
 fn expr_idents(e: &syn::Expr) -> Vec<String> {
@@ -1012,29 +1032,62 @@ fn tag_written(b: &syn::Expr) -> Option<i128> {
     None
 }
 
+fn all_variants<'a>(file: &'a syn::File, ty: &str) -> Vec<&'a str> {
+    // leaked strings: the extractor is a short-lived process
+    for it in &file.items { if let syn::Item::Enum(e) = it { if e.ident == ty { return e.variants.iter().map(|v| &*Box::leak(v.ident.to_string().into_boxed_str())).collect(); } } }
+    vec![]
+}
+
 fn tags_of(file: &syn::File, ty: &str, variants: &[&str], what: &str) -> Vec<(String, i128, i128)> {
     let pack = find_impl_fn(file, ty, "pack").unwrap_or_else(|| fail(&format!("{what}::pack not found")));
     let unpack = find_impl_fn(file, ty, "unpack").unwrap_or_else(|| fail(&format!("{what}::unpack not found")));
     let pm = find_match(&pack.block, "self").unwrap_or_else(|| fail(&format!("{what}::pack: no match on self")));
-    let um = find_match(&unpack.block, "discrim").unwrap_or_else(|| fail(&format!("{what}::unpack: no match on the discriminator byte")));
+    let um = find_match_by(&unpack.block, &|m: &syn::ExprMatch| m.arms.iter().filter(|a| arm_tag(&a.pat).is_some()).count() >= 2)
+        .unwrap_or_else(|| fail(&format!("{what}::unpack: no match on the discriminator byte")));
     let mut out = vec![];
     for v in variants {
         let parm = pm.arms.iter().find(|a| variant_of(&a.pat).as_deref() == Some(*v)).unwrap_or_else(|| fail(&format!("{what}::pack: no arm for {v}")));
         let written = if *v == "Uninitialized" { 0 } else { tag_written(&parm.body).unwrap_or_else(|| fail(&format!("{what}::pack: arm {v} does not assign dst[0] a constant"))) };
         let mut read = None;
         for a in &um.arms {
-            if let syn::Pat::Lit(l) = &a.pat {
-                if let Some(n) = eval(&syn::Expr::Lit(l.clone()), &Consts::new()) {
-                    if variant_in_expr(&a.body, file, ty, variants).as_deref() == Some(*v) { read = Some(n); }
-                }
+            if let Some(n) = arm_tag(&a.pat) {
+                if variant_in_expr(&a.body, file, ty, variants).as_deref() == Some(*v) { read = Some(n); }
             }
         }
         out.push((v.to_string(), written, read.unwrap_or_else(|| fail(&format!("{what}::unpack: no literal arm produces {v}")))));
     }
     // every literal arm of unpack must be accounted for
-    let lits = um.arms.iter().filter(|a| matches!(a.pat, syn::Pat::Lit(_))).count();
-    if lits != variants.len() { fail(&format!("{what}::unpack has {lits} literal arms, expected {}", variants.len())) }
+    // every tagged arm that builds a value must be accounted for (no further variant, no second tag for one variant)
+    let lits = um.arms.iter().filter(|a| arm_tag(&a.pat).is_some() && variant_in_expr(&a.body, file, ty, &all_variants(file, ty)).is_some()).count();
+    if lits != variants.len() { fail(&format!("{what}::unpack has {lits} tagged arms that build a value, expected {}", variants.len())) }
     out
+}
+
+/// a pattern over one byte `x` -> the condition under which it matches
+fn pat_cond(p: &syn::Pat, env: &Consts) -> Option<String> {
+    let num = |e: &syn::Expr| -> Option<String> {
+        if let syn::Expr::Path(pp) = e { let n = path_str(&pp.path); if n == "u8::MAX" { return Some("255".into()); } if n == "U8_TOP_BIT" { return Some("U8_TOP_BIT".into()); } }
+        eval(e, env).map(|v| v.to_string())
+    };
+    match p {
+        syn::Pat::Lit(l) => Some(format!("(RX.eq (RX.lit x) (RX.lit {}))", eval(&syn::Expr::Lit(l.clone()), env)?)),
+        syn::Pat::Paren(pp) => pat_cond(&pp.pat, env),
+        syn::Pat::Ident(id) => pat_cond(&id.subpat.as_ref()?.1, env),
+        syn::Pat::Path(pp) => { let n = path_str(&pp.path); if n == "U8_TOP_BIT" { Some("(RX.eq (RX.lit x) (RX.lit U8_TOP_BIT))".into()) } else { None } }
+        syn::Pat::Or(o) => {
+            let mut cs: Vec<String> = vec![];
+            for c in &o.cases { cs.push(pat_cond(c, env)?); }
+            let mut acc = cs.pop()?;
+            while let Some(c) = cs.pop() { acc = format!("(RX.or {c} (fun _ => {acc}))"); }
+            Some(acc)
+        }
+        syn::Pat::Range(r) => {
+            if !matches!(r.limits, syn::RangeLimits::Closed(_)) { return None; }
+            let lo = num(r.start.as_ref()?)?; let hi = num(r.end.as_ref()?)?;
+            Some(format!("(RX.and (RX.ge (RX.lit x) (RX.lit {lo})) (fun _ => (RX.le (RX.lit x) (RX.lit {hi}))))"))
+        }
+        _ => None,
+    }
 }
 
 fn gen_seed_tags(repo: &Path, out: &Path) {
@@ -1062,6 +1115,11 @@ fn gen_seed_tags(repo: &Path, out: &Path) {
     for a in &m.arms {
         let cond = match &a.pat {
             syn::Pat::Lit(l) => format!("(RX.eq (RX.lit x) (RX.lit {}))", eval(&syn::Expr::Lit(l.clone()), &Consts::new()).unwrap_or_else(|| fail("resolve: literal pattern"))),
+            // `x @ (1 | LO..=HI)`, `1 | LO..=HI`, `LO..=HI`: a pattern over literals, constants and inclusive ranges (no guard)
+            p if a.guard.is_none() && !matches!(p, syn::Pat::Wild(_)) && !matches!(p, syn::Pat::Ident(i) if i.subpat.is_none()) => {
+                let mut env = Consts::new(); collect_consts(&acct.items, "", &mut env);
+                pat_cond(p, &env).unwrap_or_else(|| fail("resolve: unsupported pattern"))
+            }
             syn::Pat::Ident(id) => {
                 let (_, g) = a.guard.as_ref().unwrap_or_else(|| fail("resolve: binding pattern without a guard"));
                 // the bound name stands for the scrutinee
